@@ -26,6 +26,8 @@ BOUNDS = {
              "seeded sample of 260 ordered pairs; one step",
     "thorough": "same pool; every binary operator on every ordered pair; plus 6000 seeded two-step chains",
 }
+BOUNDS_ALSO = '; also: pool members with numpy storage in pure-offset units (degC, Pa(g)), concrete NaN/inf/zero numpy storage (two arrays with the same numbers), an improper fraction; operations: in-place operators, CheckValues with another dimension, ValidateValues, GetValues twice; always-in pairs for the two-category operand and the non-finite storage'
+BOUNDS = {k_: v_ + BOUNDS_ALSO for k_, v_ in BOUNDS.items()}
 ASSUMPTIONS = ["A-FP", "A-NP incl. in-place ufunc semantics (out=) of the object-array model", "formatting runs with its output discarded (C-level %g on the NaN payload)",
                "proxies pickle by reference, so the real __reduce__ of Scalar/FixedArray/Quantity is what is exercised"]
 CHUNK = 10
